@@ -53,6 +53,18 @@ func typed(t string, x *uint64, wordStart bool) string {
 		sb.WriteString([]string{"junk", "x;y", "'q"}[next(3)])
 		sb.WriteByte(23) // ^W
 	}
+	if wordStart && next(14) == 0 {
+		// a look into the history and back: Up j times, Down j times (more than
+		// the history holds does nothing extra); the pending text returns
+		j := 1 + next(4)
+		up, down := []string{"\x1b[A", "\x10"}[next(2)], []string{"\x1b[B", "\x0e"}[next(2)]
+		for k := 0; k < j; k++ {
+			sb.WriteString(up)
+		}
+		for k := 0; k < j; k++ {
+			sb.WriteString(down)
+		}
+	}
 	rs := []rune(t)
 	for i := 0; i < len(rs); i++ {
 		switch k := next(16); {
